@@ -954,7 +954,7 @@ func NewTerminal(opts *Options, eventBox *util.EventBox, executor *util.Executor
 		headerFirst:        opts.HeaderFirst,
 		headerLines:        opts.HeaderLines,
 		gap:                opts.Gap,
-		header:             []string{},
+		header:             make([]string, opts.HeaderLines),
 		header0:            opts.Header,
 		ansi:               opts.Ansi,
 		nthAttr:            opts.Theme.Nth.Attr,
